@@ -1018,7 +1018,7 @@ def replay_function(w):
 
 
 fs2_exists = z3.Function("fs_later.exists", S_, B_)
-fs2_mtime = z3.Function("fs_later.mtime", S_, Obj)
+fs2_mtime = z3.Function("fs_later.mtime", S_, I_)   # ordered (integer ticks): <, <=, > comparisons are decided too
 
 
 class LaterFS(FSModel):
@@ -1033,7 +1033,7 @@ class LaterFS(FSModel):
         out = []
         for s, b in I.fork_bool(st, fs2_exists(p)):
             if b:
-                r = Sym(fs2_mtime(p), "obj")
+                r = Sym(fs2_mtime(p), "int")
                 A.call_event(s, "os.path.getmtime", args, kwargs, r, node)
                 out.append((s, r))
             else:
@@ -1107,10 +1107,11 @@ class FSCheck(FSGetSource):
 
     def concretize(self, model, pre, out):
         if out is None:
-            return {"op": "fs_check", "exists_later": False, "same_mtime": False}
+            return {"op": "fs_check", "exists_later": False, "same_mtime": False, "mtime_order": 0}
         T = self.opened_path(out)
         return {"op": "fs_check", "exists_later": model_value(model, fs2_exists(T)) is True,
-                "same_mtime": model_value(model, fs2_mtime(T) == fs_mtime(T)) is True}
+                "same_mtime": model_value(model, fs2_mtime(T) == fs_mtime(T)) is True,
+                "mtime_order": mtime_order(model, T)}
 
     def replay(self, w):
         return replay_fs_check(w, "fs")
@@ -1162,16 +1163,26 @@ class PkgCheck(PkgGetSource):
     def concretize(self, model, pre, out):
         T = self.p
         return {"op": "pkg_check", "exists_later": model_value(model, fs2_exists(T)) is True,
-                "same_mtime": model_value(model, fs2_mtime(T) == fs_mtime(T)) is True}
+                "same_mtime": model_value(model, fs2_mtime(T) == fs_mtime(T)) is True,
+                "mtime_order": mtime_order(model, T)}
 
     def replay(self, w):
         return replay_fs_check(w, "package")
 
 
+def mtime_order(model, T):
+    """-1: the file now has an OLDER mtime than the one recorded, 0: the same, 1: a newer one"""
+    a, b = model_value(model, fs2_mtime(T)), model_value(model, fs_mtime(T))
+    return (a > b) - (a < b) if isinstance(a, int) and isinstance(b, int) else 0
+
+
 def replay_fs_check(w, which):
     log, bad = [], False
-    cases = [(w.get("exists_later", False), w.get("same_mtime", False)), (True, True), (True, False), (False, False)]
-    for exists, same in cases:
+    first = (w.get("exists_later", False), w.get("mtime_order", 0 if w.get("same_mtime") else 1))
+    # deleted; unchanged; replaced by a NEWER file; replaced by an OLDER file (restored backup, checkout of an old revision)
+    cases = [first, (True, 0), (True, 1), (True, -1), (False, 0)]
+    for exists, order in cases:
+        same = order == 0
         if which == "fs":
             ld = object.__new__(L.FileSystemLoader)
             ld.searchpath, ld.encoding, ld.followlinks = ["/srv/t"], "utf-8", False
@@ -1180,7 +1191,7 @@ def replay_fs_check(w, which):
             ld = object.__new__(L.PackageLoader)
             ld._template_root, ld._archive, ld._loader, ld.encoding, ld.package_name, ld.package_path = "/srv/t", None, None, "utf-8", "p", "t"
             path = "/srv/t/a.html"
-        with fake_fs("posix", [path], mtime=1.0) as fs:
+        with fake_fs("posix", [path], mtime=5.0) as fs:
             got = run_native(lambda: ld.get_source(None, "a.html"))
             if got[0] != "ok" or not callable(got[1][2]):
                 return (True, f"{which} loader get_source('a.html') with the file present: {got!r}")
@@ -1188,7 +1199,7 @@ def replay_fs_check(w, which):
             if not exists:
                 fs.files.discard(path)
             elif not same:
-                fs.mtime = 2.0
+                fs.mtime = 5.0 + 2.0 * order
             del fs.log[:]
             # the closure is defined in jinja2.loaders, so the fake file system still answers it
             g2 = run_native(check)
@@ -1196,7 +1207,7 @@ def replay_fs_check(w, which):
         want = ("ok", bool(exists and same))
         if g2 != want or touched - {path}:
             bad = True
-            log.append(f"file {'present' if exists else 'deleted'}, mtime {'same' if same else 'changed'}: check gives {g2!r} (touched {sorted(touched)!r}), spec {want!r}")
+            log.append(f"file {'present' if exists else 'deleted'}, mtime {'same' if same else ('newer' if order > 0 else 'OLDER')} than when loaded: check gives {g2!r} (touched {sorted(touched)!r}), spec {want!r}")
     return (bad, "; ".join(log) or f"{which} loader check agrees with the statement")
 
 
@@ -1641,14 +1652,132 @@ def hist_task(kind):
     return t
 
 
+# ---- LRU order through the environment: hits made while the cache is NOT yet full must count as uses ----------
+
+class StubTemplate:
+    """what a loader's load() hands to the environment; cheap, so that long histories can be enumerated"""
+
+    def __init__(self, name, version, src):
+        self.name, self.version, self._src, self.globals = name, version, src, {}
+
+    @property
+    def is_up_to_date(self):
+        return self._src.get(self.name) == self.version
+
+
+class StubLoader(jinja2.BaseLoader):
+    """counts how often the environment comes back to the loader (= the template was not served from the cache)"""
+
+    def __init__(self, src):
+        self.src, self.loads = src, []
+
+    def load(self, environment, name, globals=None):
+        v = self.src.get(name)
+        if v is None:
+            raise TemplateNotFound(name)
+        self.loads.append(name)
+        return StubTemplate(name, v, self.src)
+
+
+LRU_NAMES = "abcd"
+LRU_OPS = [("get", n) for n in LRU_NAMES] + [("mod", "a")]
+
+
+def run_lru_history(cap, auto, ops):
+    """statement: 'a cache of size n never holds more than n templates and evicts the least recently used one',
+    where every lookup that is served from the cache is a use -- also while the cache still has free slots.
+    Oracle: the reference LRU map says which lookups must go back to the loader, which object is served,
+    and the recency order of the cached names."""
+    src = {n: 0 for n in LRU_NAMES}
+    loader = StubLoader(src)
+    env = jinja2.Environment(loader=loader, cache_size=cap, auto_reload=auto)
+    ref = RefCache(cap, auto)
+    served = {}
+    counter = itertools.count(1)
+    for step, (op, n) in enumerate(ops):
+        if op == "mod":
+            src[n] = next(counter)
+            continue
+        before = list(ref.order)
+        was_cached = n in ref.val and (not auto or ref.val[n] == src[n])
+        want_version = ref.get(n, src[n], True)
+        n_loads = len(loader.loads)
+        t = env.get_template(n)
+        reloaded = len(loader.loads) != n_loads
+        if reloaded == was_cached:
+            return (f"step {step} get({n!r}) with reference order (least recent first) {before!r}, capacity {cap}: "
+                    + (f"{n!r} was the victim of an earlier eviction although it was not the least recently used: the loader was asked again"
+                       if reloaded else f"{n!r} was still served from the cache although it should have been evicted / reloaded"))
+        if t.version != want_version or (was_cached and served.get(n) is not t):
+            return f"step {step} get({n!r}): served version {t.version!r} (same object: {served.get(n) is t}), reference {want_version!r}"
+        served[n] = t
+        keys = [k[1] if isinstance(k, tuple) and len(k) == 2 else repr(k) for k in reversed(list(env.cache.keys()))]
+        if len(keys) > cap or keys != ref.order:
+            return f"step {step} get({n!r}): cache order (least recent first) {keys!r}, reference {ref.order!r} (capacity {cap})"
+    return None
+
+
+def bounded_lru_order(task, tier, seed):
+    t0 = time.time()
+    depth = 5 if tier == "quick" else 7
+    n, rs = 0, []
+    for cap in (3, 2, 1):
+        for L_ in range(1, depth + 1):
+            for ops in itertools.product(LRU_OPS, repeat=L_):
+                if ops[-1][0] != "get":
+                    continue
+                for auto in (True, False):
+                    n += 1
+                    r = run_lru_history(cap, auto, ops)
+                    if r:
+                        w = {"op": "lru_history", "cap": cap, "auto_reload": auto, "ops": [list(o) for o in ops]}
+                        rs.append(Res(f"{task.name}.diverges", "refuted", "bounded", time.time() - t0,
+                                      f"cache_size={cap}, auto_reload={auto}, history {ops!r}: {r}", "bounded", w))
+                        return rs
+    task.stats = {"cases": n}
+    rs.append(Res(f"{task.name}.all", "bounded-ok", "bounded", time.time() - t0, f"{n} lookup histories evict exactly the least recently used template", "bounded"))
+    return rs
+
+
+def replay_lru_history(w):
+    if w.get("op") != "lru_history":
+        return replay_history(w)
+    ops = [tuple(o) for o in w["ops"]]
+    r = run_lru_history(w["cap"], w["auto_reload"], ops)
+    if not r:
+        # the textbook case: a hit while a slot is still free, then two evictions
+        for auto in (True, False):
+            r = r or run_lru_history(3, auto, [("get", x) for x in "abacdab"])
+    return (bool(r), r or "history agrees with the reference LRU model")
+
+
+lru_order = FnTask("C25", "C25.bounded.lru_order", bounded_lru_order, "bounded", replay_lru_history)
+lru_order.bound_text = ("all histories of length <= 5 (thorough 7) ending in a lookup over get(a|b|c|d) and modify(a), cache sizes 1, 2, 3, auto_reload on/off, "
+                        "through Environment.get_template with a counting loader: which lookups go back to the loader, the object served and the "
+                        "recency order of the cache vs the reference LRU model (includes hits while the cache is not yet full followed by evictions)")
+
+
+def capacity_tasks():
+    """C25.capacity: the LRUCache operations the template cache uses, under the contracts of C26 (same VCs, run here so
+    that the statement's 'never more than n, evicts the least recently used one, a hit is a use' clause is decided by C25)"""
+    from contracts import c26
+    ts = [c26.GetItem(), c26.SetItem(), c26.Get(), c26.SetDefault(), c26.DelItem(), c26.Contains(), c26.Len(), c26.Init()]
+    for t in ts:
+        t.name = t.name.replace("C26.", "C25.capacity.")
+        t.prop = "C25"
+    return ts
+
+
+
+
 TASKS = [
     LoadTemplate("none"), LoadTemplate("lru"), LoadTemplate("dict"),
     CreateCache(), CopyCache("none"), CopyCache("dict"), CopyCache("lru"),
     IsUpToDate(True), IsUpToDate(False), FromCode(), BaseLoad(),
     DictLoaderCheck("get_source"), DictLoaderCheck("uptodate"), FunctionLoaderVC(), FSCheck(), PkgCheck(),
     GetTemplate(False), GetTemplate(True), SelectTemplate(False), SelectTemplate(True), GetOrSelect(),
-    hist_task("dict"), hist_task("function"), hist_task("function_plain"), hist_task("fs"),
-]
+    hist_task("dict"), hist_task("function"), hist_task("function_plain"), hist_task("fs"), lru_order,
+] + capacity_tasks()
 
 META = {
     "level": "proof",
@@ -1661,7 +1790,8 @@ META = {
                    "cached template; get_template / select_template / get_or_select_template go through _load_template. The induction over histories "
                    "is a stated lemma, exercised by a bounded stand-in on the real classes.",
     "assumptions": [
-        "C26 contracts of LRUCache.get / __setitem__ (proved there) are the callee spec of the cache",
+        "the LRUCache contracts used as callee spec of the cache (get refreshes recency, __setitem__ evicts only the least recently used key) are "
+        "the C26 VCs, re-run here as C25.capacity.*",
         "weakref.ref(a) == weakref.ref(b) iff a is b (loaders alive); A-EQ template names compare as abstract atoms",
         "FS-STABLE inside one call: a file does not vanish between os.path.isfile and os.path.getmtime of one PackageLoader check",
         "template sources in a DictLoader mapping are strings (never None)",
